@@ -1,8 +1,11 @@
 import SockModel.Drive.Common
 import SockModel.Model.ToDos
 import SockModel.Spec.C06
+import SockModel.Spec.C07
 /-! Driver for C06 (and the `Step` half of C07): validates ToDo/Step transcripts
-against `Model/ToDos.lean` and evaluates the property on the observations. -/
+against `Model/ToDos.lean` (correspondence) and evaluates the property on the observations: every line is
+parsed into a typed `Spec.C07.Step.Obs` and judged by `Spec.C07.Step.specStep` (which uses the reference
+scheduler of `Spec/C06.lean`); this file contains no property clause. -/
 namespace SockModel.Drive.C06
 open SockModel SockModel.Drive SockModel.ToDos SockModel.Deadline
 
@@ -67,61 +70,27 @@ def takeObs : List String → List (List String) → List (List String) × List 
     | some w => takeObs rest (w :: acc)
     | none => (acc.reverse, l :: rest)
 
-/-- spec check of one step's observations (`stepStart` = clock at the call) -/
-def specStep (sp : SpSt) (t : Int) (obs : List (List String)) : Except String (SpSt × List String) := do
-  -- the clock is observed (begin / ran / poll / end carry the virtual time), never simulated here
-  let start ← match obs with
-    | ["begin", n] :: _ => match n.toInt? with | some n => pure n | none => throw "bad begin"
-    | _ => throw "missing begin observation"
-  if start < sp.now then throw "clock went backwards"
-  let dueAtStart := sp.pend.any (fun p => p.when ≤ start)
-  let mut sp := { sp with now := start }
-  let mut pollAt : Int := start
-  let mut ranCount := 0
-  let mut polls : List Int := []
-  let mut tags : List String := []
-  for o in obs do
-    match o with
-    | ["ran", id, now] =>
-      match id.toNat?, now.toInt? with
-      | some id, some now =>
-        if polls ≠ [] then throw "task invoked after the socket wait of the same step"
-        sp ← sp.ran id now
-        ranCount := ranCount + 1
-      | _, _ => throw "bad ran observation"
-    | ["poll", ms, atNs] =>
-      match ms.toInt?, atNs.toInt? with
-      | some ms, some atNs => polls := polls ++ [ms]; pollAt := atNs
-      | _, _ => throw "bad poll observation"
-    | ["end", n] =>
-      match n.toInt? with
-      | some n =>
-        if n < sp.now then throw "clock went backwards"
-        -- C07: Step(T >= 0) blocks no longer than T in total (virtual time spent outside tasks is the poll)
-        sp := { sp with now := n }
-      | none => throw "bad end"
-    | "crash" :: w => throw ("crash: " ++ " ".intercalate w)
-    | "hang" :: w => throw ("hang: " ++ " ".intercalate w)
-    | _ => pure ()
-  -- promptness: a step that starts at/after the due time of some pending task runs at least one
-  if dueAtStart ∧ ranCount = 0 then throw s!"step at {start} ran nothing although a task was due"
-  match polls with
-  | [ms] =>
-    -- C07: bounded by T from above; never sleeps past the earliest pending ToDo; full wait when idle
-    if t ≥ 0 ∧ (ms < 0 ∨ ms > t) then throw s!"step({t}) waits {ms} ms for sockets: not bounded by its timeout"
-    let earliest := sp.pend.foldl (fun (acc : Option Int) p => match acc with
-      | none => some p.when | some a => some (min a p.when)) none
-    match earliest with
-    | some w =>
-      if ms < 0 then throw s!"step waits without limit although a ToDo is due at {w}"
-      if w > pollAt ∧ pollAt + ms * nsPerMs > w then
-        throw s!"step sleeps {ms} ms from {pollAt}, past the due time {w} of the earliest pending ToDo"
-      tags := "wait.todo" :: tags
-    | none =>
-      if ranCount = 0 ∧ ms ≠ t ∧ ¬ (t < 0 ∧ ms < 0) then throw s!"idle step({t}) waits {ms} ms instead of the full timeout"
-      tags := "wait.full" :: tags
-    pure (sp, tags)
-  | _ => throw s!"expected exactly one socket wait per step, saw {polls.length}"
+/-- one `-> ...` line as a typed observation of `Spec.C07.Step` (the clock is observed - begin / ran / poll / end
+carry the virtual time - never simulated here) -/
+def toItem (o : List String) : Spec.C07.Step.Item :=
+  match o with
+  | ["begin", n] => .begin n.toInt?
+  | ["ran", id, now] => .ran id.toNat? now.toInt?
+  | ["poll", ms, atNs] => .poll ms.toInt? atNs.toInt?
+  | ["end", n] => .fin n.toInt?
+  | "crash" :: w => .crash (" ".intercalate w)
+  | "hang" :: w => .hang (" ".intercalate w)
+  | _ => .other
+
+/-- an op line with the observation lines that followed it as one typed observation: the property predicate
+is `Spec.C07.Step.specStep` (C07 clauses of the socket wait, promptness, and the reference scheduler
+`Spec.C06` for every task invocation) - nothing of it is in this file -/
+def toObs (op : Op) (obs : List (List String)) : Spec.C07.Step.Obs :=
+  match op with
+  | .step t => .step t (obs.map toItem)
+  | _ =>
+    .user op ((obs.find? (fun o => o.head? == some "crash" ∨ o.head? == some "hang" ∨ o.head? == some "ran")).map
+      (" ".intercalate ·))
 
 partial def go (clamp : Bool) (d : DSt) : List String → Verdict
   | [] => { tags := d.tags }
@@ -131,8 +100,14 @@ partial def go (clamp : Bool) (d : DSt) : List String → Verdict
     match parseOp w with
     | none =>
       match w with
-      | "->" :: "crash" :: x => Verdict.spec ("crash: " ++ " ".intercalate x) d.tags
-      | "->" :: "hang" :: x => Verdict.spec ("hang: " ++ " ".intercalate x) d.tags
+      | "->" :: "crash" :: x =>
+        match Spec.C07.Step.specStep d.sp (.abort ("crash: " ++ " ".intercalate x)) with
+        | .error m => Verdict.spec m d.tags
+        | .ok _ => Verdict.corr "unreachable" d.tags
+      | "->" :: "hang" :: x =>
+        match Spec.C07.Step.specStep d.sp (.abort ("hang: " ++ " ".intercalate x)) with
+        | .error m => Verdict.spec m d.tags
+        | .ok _ => Verdict.corr "unreachable" d.tags
       | _ => Verdict.corr s!"unknown line {l}" d.tags
     | some op =>
       let (obs, rest') := takeObs rest []
@@ -144,14 +119,7 @@ partial def go (clamp : Bool) (d : DSt) : List String → Verdict
         | some ["end", n] => n.toInt? == some m'.now
         | _ => true
       -- direct property check on the observations
-      let specRes : Except String (SpSt × List String) :=
-        match op with
-        | .step t => specStep d.sp t obs
-        | _ =>
-          match obs.find? (fun o => o.head? == some "crash" ∨ o.head? == some "hang" ∨ o.head? == some "ran") with
-          | some o => .error ("unexpected observation outside a step: " ++ " ".intercalate o)
-          | none => .ok (d.sp.user op, [])
-      match specRes with
+      match Spec.C07.Step.specStep d.sp (toObs op obs) with
       | .error msg => Verdict.spec msg d.tags
       | .ok (sp', tg) =>
         if expect ≠ got then
